@@ -776,13 +776,17 @@ pub fn make_ctx(prog: &Program, fail_fast: bool, touch_yield: bool) -> Arc<Ctx> 
 pub fn exec_top(ctx: &Arc<Ctx>, op: &Op, caller: usize, local: &mut Local) {
     use std::panic::{catch_unwind, AssertUnwindSafe};
     { let mut t = ctx.threads.lock().unwrap(); if t[caller].is_none() { t[caller] = Some(rt::thread::current()); } }
+    let cur_stream = local.out.as_ref().map(|(k, _)| *k);      // the output stream this caller holds before the operation
     let r = catch_unwind(AssertUnwindSafe(|| exec_op(ctx, op, caller, false, local)));
     if let Err(e) = r {
         let msg = if let Some(s) = e.downcast_ref::<String>() { s.clone() } else if let Some(s) = e.downcast_ref::<&str>() { s.to_string() } else { String::new() };
         if msg.starts_with("INTENDED") { ctx.panics_caught.fetch_add(1, SeqCst); }
         else if msg.starts_with("MONITOR") { std::panic::resume_unwind(e); }
         else {
-            let on_panicked = op.obj().map(|q| ctx.mons[q].panicked.load(SeqCst)).unwrap_or(false);
+            // (dropping or reading the output stream of a pipe is an attempt on the pipe's object)
+            let pipe_obj = || ctx.prog.callers.iter().flatten().find_map(|o| match o { Op::Pipe(q, k, _) if Some(*k) == cur_stream => Some(*q), _ => None });
+            let obj = match op { Op::DropStream | Op::Consume(_) => pipe_obj(), _ => op.obj() };
+            let on_panicked = obj.map(|q| ctx.mons[q].panicked.load(SeqCst)).unwrap_or(false);
             if !on_panicked { ctx.error("C15", format!("operation {} of caller {} panicked although its object never panicked: {}", fmt_op(op), caller, msg)); }
         }
     }
@@ -795,10 +799,10 @@ pub fn run_program(ctx: &Arc<Ctx>) {
     let mut hs = vec![];
     for (c, ops) in prog.callers.iter().enumerate().skip(1) {
         let (ctx2, ops2) = (ctx.clone(), ops.clone());
-        hs.push(desync::verif::thread::spawn(move || { desync::verif::log("api", "CALLER", c, String::new()); let mut l = Local::default(); for o in &ops2 { exec_top(&ctx2, o, c, &mut l); } if l.out.is_some() { desync::verif::log("api", "DROPSTREAM", 1, String::new()); } }));
+        hs.push(desync::verif::thread::spawn(move || { desync::verif::log("api", "CALLER", c, String::new()); let mut l = Local::default(); for o in &ops2 { exec_top(&ctx2, o, c, &mut l); } if l.out.is_some() { exec_top(&ctx2, &Op::DropStream, c, &mut l); } }));
     }
     desync::verif::log("api", "CALLER", 0, String::new());
-    if let Some(ops) = prog.callers.get(0) { let mut l = Local::default(); for o in ops { exec_top(ctx, o, 0, &mut l); } if l.out.is_some() { desync::verif::log("api", "DROPSTREAM", 1, String::new()); } }
+    if let Some(ops) = prog.callers.get(0) { let mut l = Local::default(); for o in ops { exec_top(ctx, o, 0, &mut l); } if l.out.is_some() { exec_top(ctx, &Op::DropStream, 0, &mut l); } }
     for h in hs { h.join().unwrap(); }
     desync::verif::log("api", "END", 0, String::new());
     // Quiescence: with a pool, wait without touching the queues; without one, callers must carry the work
@@ -819,7 +823,7 @@ pub fn run_program(ctx: &Arc<Ctx>) {
         } else { drop(o); }
     }
     // a pipe releases its strong reference asynchronously (on the disposal object): wait for the value to be freed; never = a hang
-    for c in prog.callers.iter() { for o in c { if let Op::Pipe(q, _, _) = o { while ctx.mons[*q].drops.load(SeqCst) == 0 { rt::thread::yield_now(); } } } }
+    for c in prog.callers.iter() { for o in c { if let Op::Pipe(q, _, _) = o { while ctx.mons[*q].drops.load(SeqCst) == 0 && !ctx.mons[*q].panicked.load(SeqCst) { rt::thread::yield_now(); } } } }      // (the value of a panicked object is leaked on purpose)
     end_oracles(ctx, n_at_quiet);
     pipe_oracles(ctx);
     // Teardown of the pool
